@@ -235,6 +235,8 @@ func (c *FnCtx) execInstr(b *ssa.BasicBlock, in ssa.Instruction, st *State, reac
 		return true
 	case *ssa.MakeChan:
 		m := c.allocRef(st)
+		u.declareFun("chancap", []Sort{SInt}, SInt)
+		c.define(eq(mk(SInt, "chancap", m), c.term(x.Size)))
 		c.setReg(x, m)
 		return true
 	case *ssa.Lookup:
